@@ -20,6 +20,9 @@ const (
 	SpMap     = "map"     // map[B<i>]uint64
 	SpGeneric = "generic" // G[B<i>]
 	SpExt     = "ext"     // ext.V<i>
+	SpAnon    = "anon"    // struct{ H, X<i> uint64 }: an unnamed struct type
+	SpArray   = "array"   // [i+1]uint64: an unnamed array type
+	SpFunc    = "func"    // func(B<i>) uint64: an unnamed function type
 	SpIface   = "iface"   // I<i>: named interfaces with one common method set - distinct types whose values are assignable to one another
 	SpTime    = "time"    // time.Time (a type the generated code has locals of: startTime)
 )
